@@ -2,6 +2,7 @@ package main
 
 import (
 	"fmt"
+	"go/token"
 	"strings"
 
 	"golang.org/x/tools/go/ssa"
@@ -184,7 +185,7 @@ func c13(c *Ctx) {
 		d     string
 	}{
 		{"litefs.(*DB).ReleaseHaltLock", "release", gs(GP("(nil == "+loaded+")", false), GP("(p2 == "+loaded+".haltLock.ID)", true)), "only when a lock is granted and its id is the one released"},
-		{"litefs.(*DB).EnforceHaltLockExpiration", "expiry", gs(GP("(nil == "+loaded+")", false), GP("(nil == "+loaded+".haltLock.Expires)", false), GP("time.(Time).After(*"+loaded+".haltLock.Expires, time.Now())", false)), "only when a lock is granted, has an expiry and that expiry is not after now"},
+		{"litefs.(*DB).EnforceHaltLockExpiration", "expiry", gs(GP("(nil == "+loaded+")", false), GP("(nil == "+loaded+".haltLock.Expires)", false), GP("time.(Time).After(*"+loaded+".haltLock.Expires, time.Now())", false), GP("sync.(*RWMutex).TryLock(&"+loaded+".pin)", true)), "only when a lock is granted, has an expiry, that expiry is not after now and no commit from the holder is in flight (pin taken exclusively)"},
 	} {
 		un := p.Calls("litefs.(*GuardSet).Unlock")
 		for i, g := range r.when {
@@ -195,6 +196,9 @@ func c13(c *Ctx) {
 			c.Expect(r.short+"/cas-identity", c.argR(in, 1)+" -> "+c.argR(in, 2), pat(loaded+" -> nil"), r.short+": the swap replaces exactly the loaded value by nil", "")
 		}
 		c.ExpectAll(r.short+"/unlocks-stored-set", c.CallArgs(r.fn, un, 0), pat(loaded+".guardSet"), 1, r.short+": the set unlocked is the one stored with the lock", "")
+		if r.short == "release" {
+			c.Before("release/waits-for-pin", r.fn, Any(cas, un), p.CallWhere("sync.(*RWMutex).Lock", "^"+pat("sync.(*RWMutex).Lock(&"+loaded+".pin)")+"$"), 2, "release takes the pin exclusively before it clears the reference and unlocks the set: it waits for an in-flight commit of the holder", "a release that overtakes the holder's own slow commit frees the write lock while that commit is still going to be applied")
+		}
 		c.Before(r.short+"/clear-before-unlock", r.fn, un, cas, 1, r.short+": the reference is cleared before the write lock is released", "a local writer that gets the write lock while HoldsHaltLock still answers true races a forwarded commit")
 	}
 	c.OnlyGuards("expiry/unconditional-sweep", "litefs.(*Store).EnforceHaltLockExpiration", p.Calls("litefs.(*DB).EnforceHaltLockExpiration"), gs(G(`rangeok\(.*\)`, true), G(`\(.* < builtin\.len\(.*\)\)`, true)), 1, "the sweep visits the databases under no condition other than the iteration itself (in particular not 'only while primary')", "a lock granted before a demotion must still expire: its guards pin the write lock and block role-change recovery for ever")
@@ -227,16 +231,26 @@ func c13(c *Ctx) {
 
 	// ---- holder ----
 	tx := "http.(*Server).handlePostTx"
-	hold := "litefs.(*DB).HoldsHaltLock"
-	c.Guarded("holder/apply-guarded", tx, p.PlainCalls("litefs.(*DB).WriteLTXFileAt", "litefs.(*DB).ApplyLTXNoLock"), gs(GP(hold+"(@@)", true)), 2,
-		"the /tx handler writes and applies a forwarded file only after DB.HoldsHaltLock answered true", "the primary accepts a forwarded transaction only from the current holder of that database's halt lock")
-	c.ExpectAll("holder/id-from-request", c.CallArgs(tx, p.PlainCalls(hold), 1), pat("strconv.ParseInt(net/url.(Values).Get(@@, \"lockID\"), 10, 64)#0"), 1, "the id tested is parsed from the request's lockID parameter", "")
-	c.ExpectAll("holder/same-db", []string{strings.Join(c.CallArgs(tx, p.PlainCalls(hold), 0), ";") + " / " + strings.Join(c.CallArgs(tx, p.PlainCalls("litefs.(*DB).ApplyLTXNoLock"), 0), ";")}, pat("litefs.(*Store).DB(@@) / litefs.(*Store).DB(@@)"), 1, "holder test and apply address the database named in the request", "")
-	c.Expect("holder/def", strings.Join(c.returnsOf(hold), ";"), pat("phi(("+loaded+".haltLock.ID == p1)|false)"), "HoldsHaltLock(id) is: a lock is granted and its id equals id", "")
-	c.GuardedPaths("holder/def-nil", hold, func(in ssa.Instruction) bool {
+	pinFn := "litefs.(*DB).PinHaltLock"
+	pinned := G(pat("("+pinFn+"(@@) == nil)")+"|"+pat("(nil == "+pinFn+"(@@))"), false)
+	c.Guarded("holder/apply-guarded", tx, p.PlainCalls("litefs.(*DB).WriteLTXFileAt", "litefs.(*DB).ApplyLTXNoLock"), gs(pinned), 2,
+		"the /tx handler writes and applies a forwarded file only after DB.PinHaltLock returned a release function (lock held by the caller and pinned)", "the primary accepts a forwarded transaction only from the current holder of that database's halt lock; a plain check that is not pinned can be invalidated by release or expiry while the body is still being received")
+	c.ExpectAll("holder/id-from-request", c.CallArgs(tx, p.PlainCalls(pinFn), 1), pat("strconv.ParseInt(net/url.(Values).Get(@@, \"lockID\"), 10, 64)#0"), 1, "the id tested is parsed from the request's lockID parameter", "")
+	c.ExpectAll("holder/same-db", []string{strings.Join(c.CallArgs(tx, p.PlainCalls(pinFn), 0), ";") + " / " + strings.Join(c.CallArgs(tx, p.PlainCalls("litefs.(*DB).ApplyLTXNoLock"), 0), ";")}, pat("litefs.(*Store).DB(@@) / litefs.(*Store).DB(@@)"), 1, "holder test and apply address the database named in the request", "")
+	c.pinHeldUntilReturn("holder/pinned-until-return", tx, pinFn, p.PlainCalls("litefs.(*DB).WriteLTXFileAt", "litefs.(*DB).ApplyLTXNoLock"))
+	c.pinDefinition("holder/pin-def", pinFn, loaded)
+	c.GuardedPaths("holder/def-nil", pinFn, func(in ssa.Instruction) bool {
 		u, ok := in.(*ssa.UnOp)
 		return ok && strings.HasSuffix(p.Render(u), ".haltLock.ID")
 	}, [][]*Guard{{GP("(nil == "+loaded+")", false)}}, 1, "the id is read only when a lock is granted", "")
+	{
+		pinField := func(in ssa.Instruction) bool {
+			fa, ok := in.(*ssa.FieldAddr)
+			return ok && typeStr(deref(fa.X.Type())) == "litefs.haltLockAndGuard" && fieldName(fa.X.Type(), fa.Field) == "pin"
+		}
+		c.OnlyIn("holder/pin-owners", pinField, []string{pat(pinFn), pat("litefs.(*DB).ReleaseHaltLock"), pat("litefs.(*DB).EnforceHaltLockExpiration")}, 3,
+			"the pin mutex of a granted halt lock is touched only by PinHaltLock, ReleaseHaltLock and EnforceHaltLockExpiration", "anybody else unlocking it lets release or expiry proceed during an in-flight commit")
+	}
 	c.ErrStops("holder/write-error", tx, p.PlainCalls("litefs.(*DB).WriteLTXFileAt"), p.PlainCalls("litefs.(*DB).ApplyLTXNoLock"), 1, "a file that could not be written is not applied", "")
 	{
 		// the literal query keys of Client.Commit contain lockID fed from the lockID parameter
@@ -419,4 +433,262 @@ func c13(c *Ctx) {
 	// ---- fuse entry ----
 	c.OnlyInScope("fuse/acquire-callers", []string{"fuse", "http", "litefs"}, p.Calls("litefs.(*DB).AcquireRemoteHaltLock"), []string{pat("fuse.(*LockHandle)@@"), pat("fuse.(*LockNode)@@"), pat("litefs.(*DB).AcquireRemoteHaltLock")}, 1,
 		"the remote halt lock is requested only from the fuse lock file handler", "")
+}
+
+// pinHeldUntilReturn: the release function returned by pinFn in fname is only
+// compared with nil and deferred (directly or through a deferred closure whose
+// only use of it is the call); the defer precedes every protected call. The
+// pin therefore lasts until the function returns.
+func (c *Ctx) pinHeldUntilReturn(key, fname, pinFn string, protected IM) {
+	rule := "K1/K6 pin released only at function exit"
+	desc := "in " + fname + " the function returned by " + pinFn + " is only tested against nil and deferred, and the defer precedes the copy and the apply: the pin lasts until the handler returns"
+	why := "an unpin before the apply (or none at all) re-opens the window between the holder check and the apply, or blocks release and expiry for ever"
+	fn := c.F(fname)
+	if !c.need(key, rule, desc, fn, fname) {
+		return
+	}
+	calls := Instrs(fn, c.P.PlainCalls(pinFn))
+	if len(calls) != 1 {
+		c.fail(key, rule, desc, why, fmt.Sprintf("%d call(s) of %s, expected 1", len(calls), pinFn), len(calls))
+		return
+	}
+	v := calls[0].(ssa.Value)
+	defers := map[ssa.Instruction]bool{}
+	bad := ""
+	// deferredOnly: the closure value is used only as the callee of defers in fn.
+	deferredOnly := func(mc *ssa.MakeClosure) bool {
+		if mc.Referrers() == nil {
+			return false
+		}
+		n := 0
+		for _, r := range *mc.Referrers() {
+			switch x := r.(type) {
+			case *ssa.Defer:
+				if x.Call.Value != mc {
+					return false
+				}
+				defers[x] = true
+				n++
+			case *ssa.DebugRef:
+			default:
+				return false
+			}
+		}
+		return n > 0
+	}
+	var uses func(val ssa.Value, inClosure bool)
+	seen := map[ssa.Value]bool{}
+	uses = func(val ssa.Value, inClosure bool) {
+		if seen[val] || val.Referrers() == nil {
+			return
+		}
+		seen[val] = true
+		for _, r := range *val.Referrers() {
+			switch x := r.(type) {
+			case *ssa.DebugRef:
+			case *ssa.BinOp:
+				if !(isNilConst(x.X) || isNilConst(x.Y)) {
+					bad = "compared with a non-nil value at " + c.where(x)
+				}
+			case *ssa.Defer:
+				if x.Call.Value == val && !inClosure {
+					defers[x] = true
+				} else {
+					bad = "passed to a deferred call at " + c.where(x)
+				}
+			case *ssa.Call:
+				if x.Call.Value == val && inClosure {
+					continue // called inside a closure that is itself only deferred
+				}
+				bad = "called or passed on at " + c.where(x) + " (not deferred)"
+			case *ssa.Store:
+				if x.Addr == val {
+					// val is the cell of the variable: the store defines it
+				} else if a, ok := x.Addr.(*ssa.Alloc); ok && x.Val == val {
+					uses(a, inClosure)
+				} else {
+					bad = "stored at " + c.where(x)
+				}
+			case *ssa.UnOp:
+				uses(x, inClosure)
+			case *ssa.MakeClosure:
+				if !deferredOnly(x) {
+					bad = "captured by a closure that is not only deferred at " + c.where(x)
+					continue
+				}
+				cf := x.Fn.(*ssa.Function)
+				for i, b := range x.Bindings {
+					if b == val && i < len(cf.FreeVars) {
+						uses(cf.FreeVars[i], true)
+					}
+				}
+			default:
+				bad = fmt.Sprintf("used by %T at %s", r, c.where(r))
+			}
+		}
+	}
+	uses(v, false)
+	if bad != "" {
+		c.fail(key, rule, desc, why, "the release function is "+bad, 1)
+		return
+	}
+	if len(defers) == 0 {
+		c.fail(key, rule, desc, why, "the release function is never deferred: the pin is never dropped", 1)
+		return
+	}
+	isDefer := func(in ssa.Instruction) bool { return defers[in] }
+	s := &Search{P: c.P, Fn: fn, Avoid: isDefer, Tgt: protected}
+	if f := s.Run(); f != nil {
+		c.fail(key, rule, desc, why, fmt.Sprintf("%s reachable before the release function is deferred; path %s", c.where(f.Instr), c.P.TraceString(f.Trace)), 1)
+		return
+	}
+	if len(Instrs(fn, protected)) < 2 {
+		c.fail(key, rule, desc, why, "fewer than 2 protected calls matched", 0)
+		return
+	}
+	c.ok(key, rule, desc, len(defers)+len(Instrs(fn, protected)))
+}
+
+// pinDefinition: PinHaltLock returns a non-nil function only when a lock is
+// granted, its id is the argument, and - after the pin was taken shared - a
+// fresh load of the reference still yields the same value; that function is the
+// RUnlock of the same mutex; every nil return after the RLock is preceded by
+// the RUnlock.
+func (c *Ctx) pinDefinition(key, fname, loaded string) {
+	rule := "K2/K6 pin definition (value identity on go/ssa)"
+	desc := "PinHaltLock(id) returns a release function only if a lock is granted, its id equals id and, once the pin is held shared, a second load of DB.haltLockAndGuard is identical to the first; the function is RUnlock of that lock's pin; a failed re-check drops the pin"
+	why := "without the re-check under the pin a release that ran between the first load and RLock goes unnoticed: the commit is applied although the write lock has been freed"
+	p := c.P
+	fn := c.F(fname)
+	if !c.need(key, rule, desc, fn, fname) {
+		return
+	}
+	loadOf := func(v ssa.Value) *ssa.Call {
+		ta, ok := v.(*ssa.TypeAssert)
+		if !ok {
+			return nil
+		}
+		call, ok := ta.X.(*ssa.Call)
+		if !ok || p.CalleeName(&call.Call) != "sync/atomic.(*Value).Load" || p.Render(ta) != strings.ReplaceAll(loaded, "@@", "") {
+			return nil
+		}
+		return call
+	}
+	pinOwner := func(addr ssa.Value) ssa.Value {
+		fa, ok := addr.(*ssa.FieldAddr)
+		if !ok || fieldName(fa.X.Type(), fa.Field) != "pin" {
+			return nil
+		}
+		return fa.X
+	}
+	var rlocks, runlocks []ssa.Instruction
+	var X ssa.Value
+	for _, in := range Instrs(fn, p.Calls("sync.(*RWMutex).RLock")) {
+		if o := pinOwner(callVals(in)[0]); o != nil && loadOf(o) != nil {
+			if X != nil && X != o {
+				c.fail(key, rule, desc, why, "RLock on two different values", 0)
+				return
+			}
+			X = o
+			rlocks = append(rlocks, in)
+		}
+	}
+	if len(rlocks) != 1 {
+		c.fail(key, rule, desc, why, fmt.Sprintf("%d RLock call(s) on the pin of the loaded lock, expected 1", len(rlocks)), len(rlocks))
+		return
+	}
+	for _, in := range Instrs(fn, p.Calls("sync.(*RWMutex).RUnlock")) {
+		if _, isCall := in.(*ssa.Call); isCall && pinOwner(callVals(in)[0]) == X {
+			runlocks = append(runlocks, in)
+		}
+	}
+	// the re-check: X == Y with Y loaded after the RLock
+	var recheck []*ssa.BinOp
+	for _, b := range fn.Blocks {
+		for _, in := range b.Instrs {
+			bo, ok := in.(*ssa.BinOp)
+			if !ok || (bo.Op != token.EQL && bo.Op != token.NEQ) {
+				continue
+			}
+			var y ssa.Value
+			if bo.X == X {
+				y = bo.Y
+			} else if bo.Y == X {
+				y = bo.X
+			} else {
+				continue
+			}
+			l2 := loadOf(y)
+			if l2 == nil || l2 == loadOf(X) {
+				continue
+			}
+			s := &Search{P: p, Fn: fn, Avoid: func(i ssa.Instruction) bool { return i == rlocks[0] }, Tgt: func(i ssa.Instruction) bool { return i == ssa.Instruction(l2) }}
+			if f := s.Run(); f != nil {
+				c.fail(key, rule, desc, why, "the second load at "+c.where(l2)+" can run before the pin is taken (RLock at "+c.where(rlocks[0])+")", 1)
+				return
+			}
+			recheck = append(recheck, bo)
+		}
+	}
+	if len(recheck) != 1 {
+		c.fail(key, rule, desc, why, fmt.Sprintf("%d identity re-check(s) of the loaded reference against a fresh load, expected 1", len(recheck)), len(recheck))
+		return
+	}
+	n := 0
+	for _, b := range fn.Blocks {
+		for _, in := range b.Instrs {
+			ret, ok := in.(*ssa.Return)
+			if !ok || len(ret.Results) != 1 {
+				continue
+			}
+			n++
+			if isNilConst(ret.Results[0]) {
+				continue
+			}
+			mc, ok := ret.Results[0].(*ssa.MakeClosure)
+			if !ok || len(mc.Bindings) != 1 || pinOwner(mc.Bindings[0]) != X || !strings.HasPrefix(mc.Fn.Name(), "RUnlock$bound") {
+				c.fail(key, rule, desc, why, "the value returned at "+c.where(ret)+" is not the RUnlock of the pinned lock: "+p.Render(ret.Results[0]), n)
+				return
+			}
+			// every path to this return: granted, id matches, RLock taken, re-check true
+			for _, g := range []*Guard{GP("(nil == "+loaded+")", false), G(pat("(p1 == "+loaded+".haltLock.ID)")+"|"+pat("("+loaded+".haltLock.ID == p1)"), true)} {
+				if !c.dominatedBy(fn, ret, g) {
+					c.fail(key, rule, desc, why, "the non-nil return at "+c.where(ret)+" is reachable without "+g.Re, n)
+					return
+				}
+			}
+			cond := recheck[0]
+			s := &Search{P: p, Fn: fn, Block: func(e Edge) bool {
+				if len(e.From.Instrs) == 0 {
+					return false
+				}
+				iff, ok := e.From.Instrs[len(e.From.Instrs)-1].(*ssa.If)
+				if !ok || iff.Cond != ssa.Value(cond) {
+					return false
+				}
+				return (e.Succ == 0) == (cond.Op == token.EQL)
+			}, Tgt: func(i ssa.Instruction) bool { return i == ssa.Instruction(ret) }}
+			if f := s.Run(); f != nil {
+				c.fail(key, rule, desc, why, "the non-nil return at "+c.where(ret)+" is reachable without the identity re-check holding; path "+p.TraceString(f.Trace), n)
+				return
+			}
+		}
+	}
+	// a failed re-check releases the shared pin before returning nil
+	s := &Search{P: p, Fn: fn, From: rlocks, Avoid: func(i ssa.Instruction) bool {
+		for _, u := range runlocks {
+			if u == i {
+				return true
+			}
+		}
+		return false
+	}, Tgt: func(i ssa.Instruction) bool {
+		ret, ok := i.(*ssa.Return)
+		return ok && len(ret.Results) == 1 && isNilConst(ret.Results[0])
+	}}
+	if f := s.Run(); f != nil {
+		c.fail(key, rule, desc, why, "nil is returned at "+c.where(f.Instr)+" with the pin still held shared: release and expiry of the next holder block for ever; path "+p.TraceString(f.Trace), n)
+		return
+	}
+	c.ok(key, rule, desc, n+2)
 }
